@@ -210,7 +210,7 @@ def finalize(agg, plan):
     agg["counters"]["name_sets_with_all_orders_observed"] = len(orders) - len(incomplete)
     agg["counters"]["name_sets_incomplete"] = len(incomplete)
     agg["outcomes"] = {("distinct dumps", len(shas)), ("name sets", len(orders))} | {("incomplete", str(x)) for x in incomplete}
-    if incomplete:
+    if incomplete and not any(c.get("cap") == "wall_budget" for c in agg["caps"]):
         agg["errors"].append({"unit": "finalize", "error": f"not every iteration order was observed: {incomplete}; raise the number of hash seeds"})
     return vio
 
